@@ -51,6 +51,7 @@ def new_interp():
     it = csym.Interp(PROGRAM, api, module_globals())
     it.st = api["__state__"]
     install_bridge(it)
+    install_ht_bridge(it)
     return it
 
 
@@ -218,3 +219,49 @@ class CTraitModel:
 
     def __getattr__(self, k):
         return getattr(self.ct, k)
+
+
+# ---- bridging real HasTraits objects -------------------------------------------------------------------
+HASTRAITS_INITED, HASTRAITS_NO_NOTIFY, HASTRAITS_VETO_NOTIFY = 1, 2, 4
+
+
+def hastraits_struct(it, pyobj, itrait_dict=None):
+    """abstract has_traits_object sharing the real object's dictionaries (so interpreted C and natively running
+    Python see one state).  itrait_dict: pass the real instance-trait dict if the object has one."""
+    cache = it.__dict__.setdefault("_ht_cache", {})
+    if id(pyobj) in cache:
+        return cache[id(pyobj)][1]
+    flags = 0
+    try:
+        if pyobj.traits_inited():
+            flags |= HASTRAITS_INITED
+        if not pyobj._trait_notifications_enabled():
+            flags |= HASTRAITS_NO_NOTIFY
+        if pyobj._trait_notifications_vetoed():
+            flags |= HASTRAITS_VETO_NOTIFY
+    except Exception:
+        pass
+    nots = pyobj._notifiers(False)
+    s = new_hasTraits(pyobj, obj_dict=pyobj.__dict__, ctrait_dict=pyobj._class_traits(),
+                      itrait_dict=pyobj._instance_traits() if itrait_dict is None else itrait_dict,
+                      notifiers=NULL if nots is None else nots, flags=flags)
+    cache[id(pyobj)] = (pyobj, s)
+    return s
+
+
+def install_ht_bridge(it):
+    import traits.ctraits as ctm
+    base_member = it.api["__member__"]
+    base_setmember = it.api["__setmember__"]
+
+    def member(interp, base, field):
+        if isinstance(base, ctm.CHasTraits):
+            return getattr(hastraits_struct(interp, base), field)
+        return base_member(interp, base, field)
+
+    def setmember(interp, base, field, v):
+        if isinstance(base, ctm.CHasTraits):
+            return setattr(hastraits_struct(interp, base), field, v)
+        return base_setmember(interp, base, field, v)
+    it.api["__member__"] = member
+    it.api["__setmember__"] = setmember
